@@ -14,8 +14,8 @@ pub static PROP: Prop = Prop {
     id: "C08",
     rule: "exhaustive: field paths of depth 0..4 (every mix of .f and ['f'] steps) x binding configurations {root unbound, \
            key missing at each level, leaf null, leaf present, intermediate not a map} wrapped in has() and in coalesce(path, \
-           fallback); coalesce argument lists of length 0..3 over 15 argument kinds (present variable/literal, null literal and \
-           variable, absent variable, absent field, absent key, division by zero, bad index, type error, call of an unbound function, recording functions \
+           fallback); coalesce argument lists of length 0..3 over 20 argument kinds (present variable/literal, null literal and \
+           variable, absent variable, absent field, absent key, division by zero, bad index, type error, call of an unbound function, the same failures spelled with literals only, recording functions \
            returning null / a value / failing) and has() over each kind; each placed at top level, inside macro bodies, in ?: \
            arms, as call argument and as list element. random: lists of length 4-5 and nested has/coalesce. Oracle: reference \
            model with the Absent failure class; the ordered log of recorded calls (arguments after the chosen one are not \
@@ -78,6 +78,12 @@ fn arg_kinds() -> Vec<(&'static str, E, bool)> {
         ("bad-index", E::Index(Box::new(var("el")), Box::new(ilit(0))), true),
         ("type-error", bin(Op::Sub, slit("a"), var("one")), true),
         ("unbound-call", call("nosuchfn", vec![var("pv")]), true),
+        // the same failures spelled with literals only (they are evaluated while compiling)
+        ("lit-absent-key", E::Index(Box::new(E::Map(vec![(slit("a"), ilit(1))])), Box::new(slit("zz"))), true),
+        ("lit-absent-field", E::Field(Box::new(E::Map(vec![(slit("a"), ilit(1))])), "zz".into()), true),
+        ("lit-div-zero", bin(Op::Div, ilit(1), ilit(0)), true),
+        ("lit-bad-index", E::Index(Box::new(E::List(vec![ilit(1)])), Box::new(ilit(5))), true),
+        ("lit-type-error", bin(Op::Sub, slit("a"), ilit(1)), true),
         ("rec-null", call("q0", vec![]), false),
         ("rec-value", call("q1", vec![]), false),
         ("rec-fail", call("q2", vec![]), true),
